@@ -51,13 +51,13 @@ Ltac use_p Hp HR e r r' X :=
 Ltac dtok t o := destruct t as [?a|o| | | | | | | |?ao| | | | | | | | | | | |?kz].
 Ltac keep := simpl; split; [reflexivity|first [apply R_cons; assumption | apply Forall2_nil]].
 
-Lemma bin_loop_R k next next' : Rp next next' -> forall n left ts ts', R ts ts' ->
-  Rres (bin_loop n k next left ts) (bin_loop n k next' left ts').
+Lemma bin_loop_R k noin next next' : Rp next next' -> forall n left ts ts', R ts ts' ->
+  Rres (bin_loop n k noin next left ts) (bin_loop n k noin next' left ts').
 Proof.
   intros Hp. induction n as [|n IH]; intros left ts ts' HR; [exact I|].
   cbn [bin_loop]. inv_R HR nl nl' t Hf r r' Hr; [keep|].
   dtok t o; try keep.
-  destruct (Nat.eqb (lvl o) k); [|keep].
+  destruct (if noin && is_in o then false else Nat.eqb (lvl o) k); [|keep].
   use_p Hp Hr e1 r1 r1' X; [|exact I]. apply IH. exact X.
 Qed.
 
@@ -127,11 +127,6 @@ Proof.
     use_p (Hg 1 false) Hr e2 r2 r2' Y; [|exact I]. inv_R Y nl3 nl3' t3 Hf3 r3 r3' Hr3; [exact I|].
     dtok t3 o; try exact I.
     use_p (Hg 1 noin) Hr3 e4 r4 r4' W; [|exact I]. simpl. auto.
-  - (* relational *)
-    use_p (Hg 10 noin) HR e1 r1 r1' X; [|exact I]. inv_R X nl nl' t Hf r r' Hr; [keep|].
-    dtok t o; try keep.
-    destruct (Nat.eqb (lvl o) 9 && negb (noin && is_in o)); [|keep].
-    use_p (Hg 9 noin) Hr e2 r2 r2' Y; [|exact I]. simpl. auto.
   - (* unary *)
     pose proof HR as HR0. inv_R HR nl nl' t Hf r r' Hr; [apply Hg; constructor|].
     destruct (unop_of_tok t) as [o|].
@@ -185,10 +180,10 @@ Qed.
 (* every layout of every rendering: line terminators anywhere, except that the
    flags of ++ and -- tokens are those of the rendering (none before a postfix
    operator) *)
-Theorem layout_roundtrip e ts : wf e = true -> norel e = true -> R (print 0 e) ts ->
+Theorem layout_roundtrip e ts : wf e = true -> R (print 0 e) ts ->
   exists f0, forall f, f0 <= f -> parse_expr f ts = Some (strip e).
 Proof.
-  intros Hw Hn HR. destruct (roundtrip_all e Hw Hn) as [HM _].
+  intros Hw HR. destruct (roundtrip_all e Hw) as [HM _].
   destruct (HM 0 0 [] (le_n _) ltac:(lia) eq_refl) as [f0 H0].
   exists f0. intros f Hf. specialize (H0 f Hf). rewrite app_nil_r in H0.
   pose proof (parse_R f 0 false _ _ HR) as X. rewrite H0 in X.
